@@ -71,3 +71,32 @@ Print Assumptions C07_volume_of_assembled_solids.
 Example C07_volume_nonvacuous : (forall a b c d, closed (tetra a b c d) /\ nonempty (tetra a b c d)) /\
   closed cube /\ nonempty cube /\ volume cube == 1.
 Proof. split; [intros; split; [apply tetra_closed | apply tetra_nonempty] | exact cube_closed_volume_one]. Qed.
+
+(* ---- index bookkeeping of from_offset_face (generated Polyface3D._verts_faces_edges_from_boundary): a loop of n vertices placed at index
+   st contributes the n cyclic wall quads and the 3n cyclic edges (bottom ring, uprights, top ring) - the closing ones join the last
+   vertex back to the first, at st as well as at 0 - and every index stays inside the loop's own block of 2n vertices *)
+From Coq Require Import ZArith List.
+From LBG Require Import Base G0_vec G12_mesh C07_offset.
+Theorem C07_offset_loop_quads_and_edges_are_the_cyclic_ones : forall (vs : list V3) (e : V3) (st : Z), vs <> nil ->
+  let n := py_len vs in
+  let '(verts, faces, edges) := Polyface3D__verts_faces_edges_from_boundary vs e st in
+  verts = vs ++ map (fun p => Point3D_move p e) vs /\
+  faces = map (quad st n) (py_range 0 n) /\
+  edges = map (ring st n 0) (py_range 0 n) ++ map (upright st n) (py_range 0 n) ++ map (ring st n n) (py_range 0 n).
+Proof. exact offset_loop_spec. Qed.
+Print Assumptions C07_offset_loop_quads_and_edges_are_the_cyclic_ones.
+
+Theorem C07_offset_loop_indices_stay_in_their_block : forall (vs : list V3) (e : V3) (st : Z), vs <> nil ->
+  let n := py_len vs in
+  let '(_, faces, edges) := Polyface3D__verts_faces_edges_from_boundary vs e st in
+  (forall a b c d, In (a, b, c, d) faces ->
+     (st <= a < st + 2 * n /\ st <= b < st + 2 * n /\ st <= c < st + 2 * n /\ st <= d < st + 2 * n)%Z) /\
+  (forall a b, In (a, b) edges -> (st <= a < st + 2 * n /\ st <= b < st + 2 * n /\ a <> b)%Z \/ n = 1%Z).
+Proof. exact offset_loop_indices_in_block. Qed.
+Print Assumptions C07_offset_loop_indices_stay_in_their_block.
+
+(* a triangular hole placed after 6 boundary vertices: its closing top edge is (11, 9), not (11, 3) *)
+Example C07_offset_loop_concrete :
+  let '(_, _, edges) := Polyface3D__verts_faces_edges_from_boundary (mkV3 0 0 0 :: mkV3 1 0 0 :: mkV3 0 1 0 :: nil) (mkV3 0 0 1) 6 in
+  last edges (0, 0)%Z = (11, 9)%Z.
+Proof. vm_compute. reflexivity. Qed.
